@@ -282,6 +282,8 @@ def valid(spec):
     t, tk, body, mode, ctr, num, pos = spec
     if mode not in MODES:
         return False
+    if not isinstance(t, str) or t == "" or "\x01" in t:
+        return False
     if mode in ("seqreset", "err_seqreset"):
         if t != "4":
             return False
@@ -795,6 +797,125 @@ HDR_TRAILER_TAGS = ("50", "57", "89", "90", "91", "93", "97", "115", "116", "122
                     "145", "212", "213", "347", "369")
 
 
+# --------------------------------------------------------------------------
+# C02 only: messages that CANNOT be represented as a well-formed frame (the encoder / the
+# connection must refuse them). They are outside C01's domain (`valid` is False for all of them).
+# --------------------------------------------------------------------------
+FRAMING_TAGS = ("8", "9", "35", "10")
+UNREP_CLASSES = ("empty_msgtype", "framing_tag_in_message", "soh_in_value", "noncanonical_tag_spelling",
+                 "empty_value")
+SOH_VALUES = (
+    "line1\x01line2", "\x01", "x\x01", "\x01x", "a\x01\x01b", "58=a\x0159=b",
+    "x\x0110=000\x018=FIX.4.4\x019=5\x0135=5", "x\x0110=000",
+)
+TAG_SPELLINGS = (" 58", "58 ", "+58", "5_8", "58\n", "\t58", "-1", "0", "058", "00", "-0", "+0",
+                 "\u0665\u0668", "\uff15\uff18", "5\u0668", " 8", "+10", "010", "9 ")
+
+
+def canonical_tag(tag):
+    return isinstance(tag, str) and tag.isascii() and tag.isdigit() and tag[:1] != "0"
+
+
+def _walk_entries(entries):
+    for e in entries:
+        yield e
+        if is_group(e):
+            for it in e[1]:
+                yield from _walk_entries(it)
+
+
+def unrep_class(spec):
+    """Why a message cannot be represented as one well-formed frame (None if no such reason is known).
+    Computed from the input only; the first matching class names the cause."""
+    t, body = spec[0], spec[2]
+    if t == "":
+        return "empty_msgtype"
+    ents = list(_walk_entries(body))
+    if any(e[0] in FRAMING_TAGS for e in ents):
+        return "framing_tag_in_message"
+    if "\x01" in t or any(not is_group(e) and isinstance(e[1], str) and "\x01" in e[1] for e in ents):
+        return "soh_in_value"
+    if any(not canonical_tag(e[0]) for e in ents):
+        return "noncanonical_tag_spelling"
+    if any(not is_group(e) and e[1] == "" for e in ents):
+        return "empty_value"
+    return None
+
+
+def _unrep_at(field, where):
+    """Body with `field` at message level (front / middle / end) or inside a group item."""
+    a, b = ("11", "v1"), ("55", "v2")
+    if where == "alone":
+        return (field,)
+    if where == "front":
+        return (field, a, b)
+    if where == "middle":
+        return (a, field, b)
+    if where == "end":
+        return (a, b, field)
+    grp_ok = "453" in TABLE.rg and TABLE.rg["453"][:1] == ["448"]
+    if not grp_ok:
+        return None
+    if where == "item_first":   # in place of / before the delimiter of the first item
+        return (a, ("453", ((field, ("448", "p1")), (("448", "p2"),))), b)
+    if where == "item_last":    # last field of the last item (right before the trailer)
+        return (a, ("453", ((("448", "p1"),), (("448", "p2"), field))))
+    if where == "nested_item" and "802" in TABLE.rg["453"]:
+        return (a, ("453", ((("448", "p1"), ("802", ((("523", "s1"), field),))),)), b)
+    return None
+
+
+UNREP_WHERE = ("alone", "front", "middle", "end", "item_first", "item_last", "nested_item")
+
+
+def _unrep_specs(klass):
+    def at(field, **kw):
+        for where in UNREP_WHERE:
+            b = _unrep_at(field, where)
+            if b is not None:
+                yield (kw.get("t", "D"), kw.get("tk", "enum"), b, kw.get("mode", "alloc"), kw.get("ctr", 1),
+                       kw.get("num"), kw.get("pos", "head"))
+
+    if klass == "framing_tag_in_message":
+        vals = {"8": ("FIX.4.4", "FIX.4.2"), "9": ("90", "5"), "35": ("D", "0"), "10": ("000", "012")}
+        for tag in FRAMING_TAGS:
+            for v in vals[tag]:
+                yield from at((tag, v))
+        # the tag map of a decoded message that the application sends on (echo / drop copy / routing)
+        dec = (("8", "FIX.4.4"), ("9", "90"), ("35", "D"))
+        for mode in ("alloc", "forward"):
+            yield ("D", "enum", dec + (("11", "v1"), ("55", "v2"), ("10", "012")), mode, 1, None, "head")
+            yield ("D", "enum", (("11", "v1"),) + dec + (("55", "v2"), ("10", "012")), mode, 1, None, "tail")
+            yield ("D", "enum", (("11", "v1"), ("55", "v2")) + dec + (("10", "012"),), mode, 1, None, "head")
+            yield ("D", "enum", (("10", "012"),) + dec + (("11", "v1"),), mode, 1, None, "head")
+        yield ("D", "enum", dec + (("11", "v1"), ("10", "012")), "possdup", 1, 7, "split")
+        yield ("0", "enum", (("8", "FIX.4.4"), ("10", "000")), "alloc", 1, None, "head")
+    elif klass == "soh_in_value":
+        for v in SOH_VALUES:
+            yield from at(("58", v))
+        yield ("5", "enum", (("58", "bye\x01now"),), "alloc", 1, None, "head")
+        yield ("D\x01", "str", (("58", "v1"),), "alloc", 1, None, "head")
+        yield ("D", "enum", (("11", "v1"), ("58", "a\x01b")), "possdup", 1, 7, "split")
+    elif klass == "noncanonical_tag_spelling":
+        for tg in TAG_SPELLINGS:
+            yield from at((tg, "x"))
+        if "453" in TABLE.rg:
+            for tg in (" 453", "+453", "0453"):   # a re-spelled count tag with items below it
+                yield ("D", "enum", (("11", "v1"), (tg, ((("448", "p1"),),))), "alloc", 1, None, "head")
+    elif klass == "empty_value":
+        yield from at(("58", ""))
+        yield from at(("5001", ""))
+        yield ("D", "enum", (("58", ""), ("11", "")), "alloc", 1, None, "head")
+        yield ("0", "enum", (("112", ""),), "alloc", 1, None, "head")
+        yield ("D", "enum", (("11", "v1"), ("58", "")), "possdup", 1, 7, "split")
+    elif klass == "empty_msgtype":
+        yield ("", "str", (), "alloc", 1, None, "head")
+        yield ("", "str", (("58", "v1"),), "alloc", 1, None, "head")
+        yield ("", "str", (("11", "v1"), ("55", "v2")), "alloc", 10, None, "head")
+    else:
+        raise ValueError(klass)
+
+
 def spec_of(body, t="D", tk="enum", mode="alloc", ctr=1, num=None, pos="head"):
     return (t, tk, fill(body), mode, ctr, num, pos)
 
@@ -802,7 +923,7 @@ def spec_of(body, t="D", tk="enum", mode="alloc", ctr=1, num=None, pos="head"):
 # --------------------------------------------------------------------------
 # units and their expansion
 # --------------------------------------------------------------------------
-def units(include_non_ascii=False):
+def units(include_non_ascii=False, include_unrepresentable=False):
     tb = TABLE
     us = [("types",), ("modes",)]
     for k in range(1, CFG["flat_k"] + 1):
@@ -836,6 +957,9 @@ def units(include_non_ascii=False):
         us.append(("val8", "flat"))
         us.append(("val8", "group"))
         us.append(("hdr",))
+    if include_unrepresentable:
+        for k in UNREP_CLASSES:
+            us.append(("unrep", k))
     return us
 
 
@@ -1197,6 +1321,10 @@ def expand(unit):
         yield spec_of((("212", "5"), ("213", "<a/> "), ("11", "v1")))
         yield spec_of((("11", "v1"), ("43", "N"), ("97", "Y"), ("122", "20240101-00:00:00")))
         yield spec_of((("11", "v1"), ("90", "3"), ("91", "abc"), ("347", "UTF-8")))
+    elif fam == "unrep":
+        for sp in _unrep_specs(unit[1]):
+            if unrep_class(sp) == unit[1]:
+                yield sp
     elif fam == "valm":
         for b in _valm_bodies(unit[1], valm_atoms(), unit[2], unit[3]):
             yield spec_of(b)
